@@ -146,6 +146,7 @@ func (g *gen) bind() {
 		}
 		var fields, methods strings.Builder
 		n := 0
+		var twin *Field
 		for _, f := range d.Fields {
 			if len(f.Args) > 0 || !alpha(f.Name) || strings.Contains(strings.Join(f.Dirs, " "), "forceResolver") {
 				continue
@@ -166,7 +167,24 @@ func (g *gen) bind() {
 			default:
 				fmt.Fprintf(&fields, "\t%s %s\n", UcFirst(f.Name), gt)
 				g.feat("autobind_struct_field")
+				// a second schema field that binds to the same Go field (the binder ignores case and
+				// underscores: createdAt / created_at); chosen without consuming randomness
+				if alias := f.Name[:1] + "_" + f.Name[1:]; len(f.Name) >= 3 && len(f.Name)%3 == 0 && twin == nil {
+					clash := false
+					for _, o := range d.Fields {
+						if o.Name == alias {
+							clash = true
+						}
+					}
+					if !clash {
+						twin = &Field{Name: alias, T: f.T.clone(), Desc: f.Desc}
+						g.feat("two_schema_fields_one_go_field")
+					}
+				}
 			}
+		}
+		if twin != nil {
+			d.Fields = append(d.Fields, twin)
 		}
 		if n == 0 {
 			continue
@@ -498,7 +516,10 @@ func (g *gen) render() {
 			g.feat("schema_file_named_with_extension_letters")
 		}
 		ext := ".graphql"
-		if g.o.Dir != "" {
+		if i == 0 && g.o.FirstFileDir != "" {
+			n = g.o.FirstFileDir + "/" + n
+			g.feat("schema_sources_inside_and_outside_exec_dir")
+		} else if g.o.Dir != "" {
 			n = g.o.Dir + "/" + n
 		}
 		txt := texts[i].String()
